@@ -102,7 +102,9 @@ CLAIMED = {
         "text": "Theorems over a model of the CLI run command as an ordered decision chain regenerated from cli/__init__.py (every return attributed to a stage, exit-code table, loop shape): a request rejected at any "
                 "pre-flight stage (unloadable/invalid config, missing required key, invalid or over-cap run space, --validate, --dry-run, run-space dry run) produces no NodeRan / SinkWrote / TraceFile effect and the "
                 "documented exit code; exit 0 iff every planned run completed; after a failed run no later run starts. Closed under the global context. CLI subprocess correspondence over valid and invalid "
-                "configurations x flag combinations (exit code, sink files, trace files, node starts per run), plus direct oracles. A run-space dry run is requested by any truthy spelling of run_space.dry_run (C17_dry_run_spellings over Model/Loader.v; generated fact, hard obligation).",
+                "configurations x flag combinations (exit code, sink files, trace files, node starts per run), plus direct oracles. A run-space dry run is requested by any truthy spelling of run_space.dry_run (C17_dry_run_spellings over Model/Loader.v; generated fact, hard obligation). The run-space flags of the command line reach the run space in force wherever it is written "
+                "(C17_flags_act_on_the_run_space_in_force, C17_flags_reach_the_launch, C17_run_space_file_wins over Model/Placement.v; which block the loader prefers and which block _run patches are generated facts, hard obligations; "
+                "refuted_when theorems for the two other patch rules; placement / malformed-source oracles on `semantiva run`).",
         "note": "Model coq/Model/Cli.v composed with Inspect.v / RunSpace.v / Pipeline.v; KeyboardInterrupt (exit 5) and argparse usage errors only appear in the generated table; --validate returns before run-space planning (oracle accepts 0 or 3 there).",
         "technique": "Coq proof over generated decision chain + CLI subprocess correspondence",
         "design": "DESIGN.md section 6, C17",
